@@ -65,7 +65,10 @@ def holdsInfo (U : Nat) (i : Info) : Option String :=
     if v = 1 then firstSome [checkTime i (tsV1 U) (unixOfTicks (tsV1 U)), expectAttr i "Node id" (nodeHex U),
                              expectAttr i "Clock sequence" (natToDec (clockSeq U))] else none,
     if v = 2 then firstSome [expectAttr i "Node id" (nodeHex U), expectAttr i "Id" (natToDec (dceId U)),
-      expectAttr i "Domain" (domainText (dceDomain U))] else none,
+      expectAttr i "Domain" (domainText (dceDomain U)),
+      -- the clock sequence of a DCE UUID is 6 bits (the low octet is the domain), its time excludes the identifier
+      expectAttr i "Clock sequence" (natToDec (clockSeqV2 U)),
+      (if (i.attrValues "Time (UTC)").isEmpty then none else checkTime i (tsV2 U) (unixOfTicks (tsV2 U)))] else none,
     if v = 6 then checkTime i (tsV6 U) (unixOfTicks (tsV6 U)) else none,
     if v = 7 then (match i.attrValues "Time (UTC)" with
       | [t] => if readTime t = some (unixOfMs (msV7 U)) then none else some "v7 displayed time ≠ unix_ts_ms"
